@@ -12,8 +12,8 @@ CONSTANTS Messages <- MCMessages
           SzBig = 60
           SzErr = 40
           SzInv = 43
-          CallMethods = {"ret", "blk", "sub"}
-          NotifMethods = {"blk"}
+          CallMethods = {"ret", "blk", "sub", "nsub"}
+          NotifMethods = {"blk", "nsub"}
           InvIds = {1}
           WithResp = FALSE
           MaxBatch = 2
